@@ -96,7 +96,8 @@ check:
 	} else if (echs_instant_lt_p(this->ex.beg, e.from)) {
 		/* we can't say for sure yet as there could be
 		 * another exception naming E */
-		echs_event_t ex = echs_evstrm_pop(this->x);
+		echs_event_t ex = LIKELY(this->x != NULL)
+			? echs_evstrm_pop(this->x) : (echs_event_t){0U};
 		this->ex = echs_event_range(ex);
 		goto check;
 	}
@@ -130,8 +131,14 @@ clone_evfilt(echs_const_evstrm_t s)
 		return NULL;
 	}
 	this->class = &evfilt_cls;
-	this->e = clone_echs_evstrm(that->e);
-	this->x = clone_echs_evstrm(that->x);
+	if (UNLIKELY((this->e = clone_echs_evstrm(that->e)) == NULL)) {
+		/* a stream that has ended has no clone, nor have we then */
+		free(this);
+		return NULL;
+	}
+	/* the exceptions may have run out, the one we're looking at
+	 * is kept in EX */
+	this->x = that->x != NULL ? clone_echs_evstrm(that->x) : NULL;
 	this->ex = that->ex;
 	return (echs_evstrm_t)this;
 }
